@@ -311,6 +311,19 @@ func isNilNode(n ast.Node) bool {
 	return v.Kind() == reflect.Ptr && v.IsNil()
 }
 
+// typeSize returns the size of typ.
+// The size is unknown (ok=false) for types that have none, like the untyped nil;
+// other untyped constant types are sized as their default type.
+func typeSize(sizes types.Sizes, typ types.Type) (size int64, ok bool) {
+	if basic, isBasic := typ.(*types.Basic); isBasic && basic.Info()&types.IsUntyped != 0 {
+		typ = types.Default(typ)
+		if basic, isBasic := typ.(*types.Basic); isBasic && basic.Info()&types.IsUntyped != 0 {
+			return 0, false
+		}
+	}
+	return sizes.Sizeof(typ), true
+}
+
 func isTypeParam(typ types.Type) bool {
 	_, ok := typ.(*typeparams.TypeParam)
 	return ok
